@@ -10,7 +10,8 @@
       - the visited set that makes the resolver skip every later import line that resolves to an
         already visited file (whatever it asks for),
       - the root file not being in the visited set,
-      - the [count < targets.len()] test and the [expect("missing target not found")] panic. *)
+      - the search for the first requested name that no fragment definition of the target file
+        carries (since /repo 3dc6a57 there is no counting and no [expect] any more). *)
 From V Require Import Base.Util C20.Model.
 
 (** * Data *)
@@ -121,7 +122,6 @@ Fixpoint lookup (st : store) (k : key) : option file :=
 Inductive ierr :=
 | FileNotFound (file : str) (p : pos)
 | FragmentNotFound (name file : str) (p : pos)
-| PanicMissingTarget            (* .expect("missing target not found") *)
 | OutOfFuel.                    (* artefact of the model; excluded by C13_imports_terminate *)
 
 (** [resolve_relative_path(document_path, Path::new(&import.path.value))] *)
@@ -133,12 +133,11 @@ Definition select (f : file) (i : import) : ierr + list def :=
   | Wildcard => inr (filter def_is_frag (fdefs f))
   | Specific ts =>
       let sel := filter (fun d => existsb (fun t => is_frag_named (fst t) d) ts) (fdefs f) in
-      if Nat.ltb (length sel) (length ts) then
-        match find (fun t => negb (existsb (is_frag_named (fst t)) (fdefs f))) ts with
-        | Some t => inl (FragmentNotFound (fst t) (ipath i) (snd t))
-        | None => inl PanicMissingTarget
-        end
-      else inr sel
+      (* "figure out which targets are missing (first one)" — by name, no counting (fix 3dc6a57) *)
+      match find (fun t => negb (existsb (is_frag_named (fst t)) (fdefs f))) ts with
+      | Some t => inl (FragmentNotFound (fst t) (ipath i) (snd t))
+      | None => inr sel
+      end
   end.
 
 Definition rstate := (list key * list def)%type.     (* visited, definitions *)
@@ -190,7 +189,6 @@ Definition err_message (e : ierr) : str :=
   match e with
   | FileNotFound f _ => s "File '" ++ f ++ s "' not found."
   | FragmentNotFound n f _ => s "'" ++ n ++ s "' is not found in the imported file '" ++ f ++ s "'."
-  | PanicMissingTarget => s "missing target not found"
   | OutOfFuel => s "<out of fuel>"
   end.
 Definition err_pos (e : ierr) : option pos :=
